@@ -16,7 +16,7 @@ Lemma fold_spec es : forall acc term,
 Proof.
   induction es as [|e r IH]; intros acc term; simpl.
   - rewrite orb_false_r; reflexivity.
-  - destruct e as [[|] [|]|[|]|]; simpl.
+  - destruct e as [[|] [|]|[|]| | | |]; simpl.
     + rewrite <- (IH (Some true) term). reflexivity.
     + apply IH.
     + apply IH.
@@ -27,6 +27,9 @@ Proof.
       replace (astop (cause_of acc term)) with (cause_of acc true)
         by (destruct acc as [[|]|]; destruct term; reflexivity).
       rewrite IH. reflexivity.
+    + apply IH.
+    + apply IH.
+    + apply IH.
 Qed.
 
 (* finalize reports exactly the declarative reading, for every event sequence *)
@@ -44,7 +47,7 @@ Lemma last_setter_no es acc :
 Proof.
   revert acc; induction es as [|e r IH]; intros acc H; simpl; [reflexivity|].
   simpl in H. apply andb_true_iff in H as [H1 H2].
-  destruct e as [[|] [|]|[|]|]; try discriminate; apply IH, H2.
+  destruct e as [[|] [|]|[|]| | | |]; try discriminate; apply IH, H2.
 Qed.
 
 (* ran until its run time; whatever stop()/terminate follows: DONE *)
@@ -56,7 +59,7 @@ Proof.
   assert (E : forall acc, last_setter (a ++ Lifetime true true :: b) acc = Some true).
   { induction a as [|x a IH]; intros acc; simpl.
     - apply last_setter_no, H.
-    - destruct x as [[|] [|]|[|]|]; apply IH. }
+    - destruct x as [[|] [|]|[|]| | | |]; apply IH. }
   rewrite E. reflexivity.
 Qed.
 
@@ -69,7 +72,7 @@ Proof.
   assert (E : forall acc, last_setter (a ++ CancelPilots true :: b) acc = Some false).
   { induction a as [|x a IH]; intros acc; simpl.
     - apply last_setter_no, H.
-    - destruct x as [[|] [|]|[|]|]; apply IH. }
+    - destruct x as [[|] [|]|[|]| | | |]; apply IH. }
   rewrite E. reflexivity.
 Qed.
 
@@ -80,10 +83,10 @@ Proof.
   intro H. rewrite agent_final_spec. unfold spec_final.
   assert (E1 : last_setter es None = None).
   { apply last_setter_no. rewrite forallb_forall in *. intros x Hx. specialize (H x Hx).
-    destruct x as [[|] [|]|[|]|]; simpl in *; try reflexivity; discriminate. }
+    destruct x as [[|] [|]|[|]| | | |]; simpl in *; try reflexivity; discriminate. }
   assert (E2 : existsb is_terminate es = false).
   { clear E1. induction es as [|x r IH]; simpl; [reflexivity|]. simpl in H.
     apply andb_true_iff in H as [H1 H2].
-    destruct x as [[|] [|]|[|]|]; simpl in *; try discriminate; apply IH, H2. }
+    destruct x as [[|] [|]|[|]| | | |]; simpl in *; try discriminate; apply IH, H2. }
   rewrite E1, E2. reflexivity.
 Qed.
